@@ -57,11 +57,12 @@ class JSONHandler:
         if isinstance(graph, CondensedReactionGraph):
             formed_bonds = graph.get_formed_bonds()
             broken_bonds = graph.get_broken_bonds()
+            fleeting_bonds = graph.get_fleeting_bonds()
 
             bonds_dict = sorted(
                 sorted(bond)
                 for bond in graph.bonds
-                if bond not in formed_bonds | broken_bonds
+                if bond not in formed_bonds | broken_bonds | fleeting_bonds
             )
             data["Bonds"] = bonds_dict
             data["Formed Bonds"] = sorted(
@@ -70,6 +71,10 @@ class JSONHandler:
             data["Broken Bonds"] = sorted(
                 tuple(sorted(bond)) for bond in broken_bonds
             )
+            if fleeting_bonds:
+                data["Fleeting Bonds"] = sorted(
+                    tuple(sorted(bond)) for bond in fleeting_bonds
+                )
         else:
             bonds_dict = sorted(tuple(sorted(bond)) for bond in graph.bonds)
             data["Bonds"] = bonds_dict
@@ -165,6 +170,8 @@ class JSONHandler:
                 graph.add_formed_bond(*map(int, bond_entry))
             for bond_entry in graph_payload.get("Broken Bonds", []):
                 graph.add_broken_bond(*map(int, bond_entry))
+            for bond_entry in graph_payload.get("Fleeting Bonds", []):
+                graph.add_fleeting_bond(*map(int, bond_entry))
 
         if isinstance(graph, StereoMolGraph):
             for entry in graph_payload.get("Atom Stereo", {}).values():
